@@ -171,6 +171,26 @@ class C10(Check):
         return {'mode': 'instances', 'config': steps[0][0], 'steps': steps, 'tasks': [[s[1] for s in steps]], 'strategy': {'kind': 'serial'},
                 'sched_seed': 0, 'interrupts': [], 'warm': None}
 
+    DOC_SEPS = ['', '\n', '\n\n', ' \n ', '#\n#', '\n\n\n', '--', '\r\n']
+
+    def _add_document_walk(self, rng, plan, cfg):
+        """12 % of the plans: the caller holds ONE document (sentences with separators that contain line breaks) as one string object
+        and parses / lexes its windows as TextSlices in an arbitrary order - forwards, backwards, repeatedly, from several threads"""
+        e = W.ENTRIES[cfg.partition('/')[0]]
+        if rng.random() >= 0.12 or not e.lalr or e.input_kind != 'str' or e.postlex or e.name == 'lexonly':
+            return
+        p = self._gen_inst(cfg)
+        m = rng.randint(2, 4)
+        starts = [rng.choice(sorted(p.options.start)) for _ in range(m)]
+        sents = [W.gen_text(rng, cfg, p, st) for st in starts]
+        seps = [rng.choice(self.DOC_SEPS) for _ in range(m)]
+        for _ in range(rng.randint(2, 5)):
+            i = rng.randrange(m)
+            op = ['parse_win', sents, seps, i, starts[i]] + (['lex'] if rng.random() < 0.25 else [])
+            t = rng.choice(plan['tasks'])
+            t.insert(rng.randint(0, len(t)), op)
+        plan['document_walk'] = True
+
     def gen_plan(self, rng, tier):
         if rng.random() < 0.06:
             return self._gen_instances_plan(rng)
@@ -208,6 +228,8 @@ class C10(Check):
                 st = rng.choice(sorted(p.options.start))
                 plan['warm'] = ['parse', W.gen_text(rng, cfg, p, st), st]
             plan['tasks'] = tasks
+            if not plan.get('cold_start'):
+                self._add_document_walk(rng, plan, cfg)
             plan['share_texts'] = rng.random() < 0.5
             plan['addr_reuse'] = rng.random() < 0.5
             plan['strategy'] = _strategy(rng, first_use)
@@ -230,6 +252,7 @@ class C10(Check):
                         ops.append(self._gen_op(rng, cfg, 'threads'))
                     ops.append(['resume_kept'])
             plan['tasks'] = [ops]
+            self._add_document_walk(rng, plan, cfg)
             plan['addr_reuse'] = rng.random() < 0.5           # sim/seams.py: a new input buffer gets the (simulated) address of a dead one of its length
             plan['strategy'] = {'kind': 'serial'}
             plan['interrupts'] = []
@@ -328,6 +351,8 @@ class C10(Check):
             pool = {}
             plan = dict(plan, tasks=[[[pool.setdefault(a, a) if isinstance(a, str) else a for a in op] for op in tops] for tops in plan['tasks']])
             out.count('probe:callers-share-text-objects')
+        if plan.get('document_walk'):
+            out.count('probe:windows-of-one-document-object-in-any-order')
         intr = {}
         for t, k, n in plan.get('interrupts', []):
             intr.setdefault(t, {})[k] = n
